@@ -9,7 +9,8 @@ CHECK = {
              "{2^-32, 1/4, 1/2, 3/4, 1-2^-32} on the first 4 canonicals; thorough: those + every script "
              "with <= 2 forced canonicals, 7-letter alphabet incl. the extreme 32-bit words, anywhere in "
              "the first 16; unforced canonicals from a fixed splitmix64 tail) x secondary storage "
-             "{0, need-1, need, ample} the real Interactor::operator() is called and its Interaction is "
+             "{0, need-1, need, ample; models with need >= 2 also on a stack whose TOTAL capacity is need-1, "
+             "full and empty} the real Interactor::operator() is called and its Interaction is "
              "judged by an independent long-double four-vector ledger. non-trivial = a distinct "
              "(configuration, set of branch tags reached by the outcome) with a non-default branch "
              "(rejection retry, sub-cut secondary, special regime, ...). Energies between lattice "
@@ -39,7 +40,8 @@ CHECK = {
         "muhad part: Coulomb [1e-4, prev(1e8)] MeV (combined mode: above the energy where the polar range "
         "is non-empty); mu ionisation ICRU73QO/Bragg [1e-4, 0.2], Bethe-Bloch [0.2, 1e3], mu-Bethe-Bloch "
         "[0.2, 1e8] MeV, always E > T_min; proton Bragg [1e-3, 2] / Bethe-Bloch [2, 1e5] MeV as hadron "
-        "extension; mu-brems [1e-2, 1e8] MeV and E > gamma cut; CHIPS [1e-5, 2e4] MeV on 1H, 3He, 4He, "
+        "extension; mu-brems [1e-2, 1e8] MeV and E > gamma cut; in the muhad part the particle type whose "
+        "cut the model does not read gets a different cut (1e-3, or 1e-2 where the letter is 1e-3); CHIPS [1e-5, 2e4] MeV on 1H, 3He, 4He, "
         "6Li, 7Li, 63Cu, 65Cu, 208Pb (flat stand-in xs tables for Z without a bundled file; the "
         "interactor never reads them)",
         "muhad part: CHIPS recoil nucleus is not returned; its kinetic energy is the local deposit, so "
